@@ -799,7 +799,9 @@ class C16(Prop):
                   '(frame) argument, for the interpreted runner under either policy; concrete 2-thread counterexample under the shared '
                   'policy by computation; the policy is re-read from Transpiler.evaluate on every run (bridge); tie: deterministic gate '
                   'replay, sys.settrace schedule explorer (preemption bound 2) and free-running stress against solo results, outcome sets '
-                  'compared with the model run on the program\'s actual statement list',
+                  'compared with the model run on the program\'s actual statement list; hold schedules (every thread held inside evaluate() '
+                  'by its own host function, nested and overlapping release orders, expressions nested 50-75 % as deep as one evaluation '
+                  'can go) replayed in pristine processes and in the model (the schedule runners of the driver are proved to be schedules)',
         text='proof: for every schedule (any interleaving of atomic steps, any number of threads, either runner class) every thread ends in '
              'the state of its evaluation run alone (Cel.Props.C16.noninterference_perCall / _interpreted / noninterference_current), stated '
              'for the namespace policy the translator reads from Transpiler.evaluate; the pre-fix shared namespace is refuted in the model '
@@ -878,8 +880,8 @@ class C16(Prop):
         from ..core import corpus_cases
         corp = corpus_cases(self.pid)
         self.prefetch_solo([c for c in corp + cases + holds if c.get("kind") in ("gate", "explore", "stress", "hold")])
-        self.prefetch_steps([c for c in corp if c.get("kind") == "steps"] + steps, 300 if quick else 1500)
-        self.prefetch_holds([c for c in corp if c.get("kind") == "hold"] + holds, 300 if quick else 1500)
+        self.prefetch_steps([c for c in corp if c.get("kind") == "steps"] + steps, 900 if quick else 2400)
+        self.prefetch_holds([c for c in corp if c.get("kind") == "hold"] + holds, 900 if quick else 2400)
         return cases + holds + steps
 
     # ---- solo outcomes come from pristine processes, so that nothing an earlier scenario left behind in this process
@@ -897,7 +899,7 @@ class C16(Prop):
             out = " ".join(f"{i}={x}" for i, x in enumerate(r)) if r is not None else "HARNESS-CRASH " + str(d.get("crash"))
             self._cache[case_key(c)] = {"out": out, "solo": [self.solo_of(t) for t in c["threads"]], "blocked": d.get("blocked", [])}
 
-    def prefetch_solo(self, cases, timeout=300):
+    def prefetch_solo(self, cases, timeout=900):
         jobs = {}
         for c in cases:
             for th in c["threads"]:
@@ -962,10 +964,10 @@ class C16(Prop):
         if k in self._cache:
             return self._cache[k]["out"]
         if c["kind"] == "steps":
-            self.prefetch_steps([c], 300)
+            self.prefetch_steps([c], 900)
             return self._cache[k]["out"]
         if c["kind"] == "hold":
-            self.prefetch_holds([c], 300)
+            self.prefetch_holds([c], 900)
             return self._cache[k]["out"]
         ths = c["threads"]
         info: Dict[str, Any] = {"solo": [self.solo_of(t) for t in ths]}
@@ -1096,6 +1098,8 @@ class C16(Prop):
     def nontrivial(self, c, out):
         if c["kind"] == "steps":
             return len(set(c["order"])) > 1 and c["order"] != sorted(c["order"])
+        if c["kind"] == "hold":         # at least one thread was really held while another one evaluated
+            return len(c["threads"]) > 1 and any(has_gate(t["expr"]) for t in c["threads"][:-1])
         for th in c["threads"]:
             if th["runner"] == "C":
                 try:
